@@ -727,12 +727,17 @@ func (a *FuncAn) run() {
 		changed := false
 		for _, b := range a.rpo[1:] {
 			var s *State
+			var edges []*State
 			for i, p := range b.Preds {
 				es := a.edgeState(p, b, i)
 				if es == nil {
 					continue
 				}
+				edges = append(edges, es)
 				s = a.join(s, es)
+			}
+			if s != nil && isHead[b] {
+				a.relationalCandidates(b, s, edges)
 			}
 			old := a.in[b]
 			if s == nil {
